@@ -608,3 +608,69 @@ def r17_6(run):
 
 
 RULES = [("R17.1", r17_1), ("R17.2", r17_2), ("R17.3", r17_3), ("R17.4", r17_4), ("R17.5", r17_5), ("R17.6", r17_6)]
+
+
+def _stem(name):
+    for pre in ("include_", "respect_status_", "respect_", "with_", "use_"):
+        if name.startswith(pre):
+            return name[len(pre):]
+    return name
+
+
+def crossed_arguments(ix, modules=None):
+    """[(caller, call, caller parameter, callee parameter it is bound to, the callee parameter of the same name)]: a parameter of the
+    caller is handed, unchanged, to a parameter of a package function that is named differently although the callee has a parameter
+    named (up to an include_/respect_ prefix) like the caller's; and the number of parameter-to-parameter bindings looked at"""
+    sites, n = [], 0
+    for f in ix.all_functions():
+        if ".test." in f.module or (modules and not f.module.startswith(tuple(modules))):
+            continue
+        params = set(f.params())
+        for c in calls(f.raw_node):
+            if not isinstance(c.func, ast.Name) or any(isinstance(a, ast.Starred) for a in c.args):
+                continue
+            r = ix.resolve_in(f, c.func.id)
+            if not r or r[0] != "func":
+                continue
+            g = r[1]
+            if g.node.args.vararg is not None:
+                continue
+            gparams = g.params()
+            bound = {}
+            for q, a in zip(gparams, c.args):
+                bound[q] = a
+            for k in c.keywords:
+                if k.arg is not None:
+                    bound[k.arg] = k.value
+            gstems = {_stem(q): q for q in gparams}
+            for q, a in bound.items():
+                if not (isinstance(a, ast.Name) and a.id in params):
+                    continue
+                n += 1
+                sp_, sq = _stem(a.id), _stem(q)
+                if sp_ != sq and sp_ in gstems and gstems[sp_] != q:
+                    # the same-named parameter of the callee gets something else (or nothing): the two are crossed
+                    other = bound.get(gstems[sp_])
+                    if not (isinstance(other, ast.Name) and other.id == a.id):
+                        sites.append((f, c, a.id, q, gstems[sp_]))
+    return sites, n
+
+
+def r17_7(run, modules=("pandapipes.toolbox",), label="the restructuring tools", min_n=20):
+    """a tool touches the element kinds it was asked to touch: a flag parameter (node_elements, branch_elements, ...) that is handed
+    on to another function of the package goes to the parameter of the same name there.  A caller parameter bound to a *differently*
+    named parameter of the callee although the callee has one of that name (up to an include_ / respect_ prefix) -- two flags crossed
+    in a positional call -- makes the tool work on the kind that was excluded."""
+    ix = run.index
+    sites, n = crossed_arguments(ix, modules)
+    for f, c, p_, q, better in sites:
+        run.analysed(f)
+        run.ob("%s|%s->%s|forwarded-to-the-same-named-parameter" % (f.short, p_, q), False,
+               "in %s every parameter handed on unchanged goes to the callee's parameter of the same name" % label, run.where(f, c),
+               detail="%s is bound to %s although %s has the parameter %s" % (p_, q, U(c.func), better))
+    run.ob("parameter-forwardings-examined", n >= min_n and not sites,
+           "parameter-to-parameter bindings in calls of package functions examined: %d, none crossed" % n, "/".join(modules))
+    run.floor(1)
+
+
+RULES.append(("R17.7", r17_7))
